@@ -77,7 +77,7 @@ def make(ctx, nd=None, nvdim=None, min_n=1, n_max=4, mask=None, subregions=False
         kw["vdims"] = [v for v in gen.VDIM_POOLS[nvdim] if v is not None][int(rng.integers(0, 2))]
     if dtype == "complex":
         kw["dtype"] = np.complex128
-    f = df.Field(mesh, nvdim=nvdim, value=arr, valid=valid.copy(), **kw)
+    f = gen.via_history(None, df.Field(mesh, nvdim=nvdim, value=arr, valid=valid.copy(), **kw))
     return spec, boxes, f, valid, (kind, dtype)
 
 
